@@ -1,0 +1,14 @@
+//go:build verif
+
+package tcp
+
+// Verification hooks (build tag verif): thin exported wrappers around unexported helpers so that the
+// correspondence harness in /verif can call the real code in-process. No behaviour is changed.
+
+// VerifClientHelloBufferSize exposes clientHelloBufferSize.
+func VerifClientHelloBufferSize(data []byte) (int, error) { return clientHelloBufferSize(data) }
+
+// VerifReadServerName exposes readServerName.
+func VerifReadServerName(clientHelloHandshakeMsg []byte) (string, bool) {
+	return readServerName(clientHelloHandshakeMsg)
+}
